@@ -395,7 +395,7 @@ func init() {
 		Level: "exploration",
 		Rule: "cases are expression trees (all shapes over every pair and triple of the 11 binary operators, with prefix/postfix decorations, ternaries in every position, chains of member access/index/call/prefix/postfix, assignments, operator x operand-kind error rows, boundary literals, seeded random typed trees); " +
 			"each tree is printed with minimal, full and redundant parentheses in spaced, tight and newline layouts, rendered by the real EvaluateString and compared with an independent typed evaluator applied to the tree (output text, or error-ness). " +
-			"also floats with a fraction around every power of two under ++/--/-, quote characters inside literals of both styles, lone CR and padded directive parentheses in the varied layout, leading-zero integer literals, failing sub-expressions at every position, trees re-evaluated in loops; lists ending in a comma, variables named In/Nil/TRUE; round 8: keys with capitalised twins, empty arrays as index bases; round 9: inexact-float operands, names after blocks; scale: chains to 1000 operands, nests to 300; concurrent replay of sampled evaluations; rounds 10-11: tricky names, native number bindings; rounds 12-13: look-alike data sets on one loaded page, tiny and huge float results, strings valid only when joined, operands from values with methods; round 14: integer literal ladder 0..70000; round 15: keys spelling character references; round 16: values compared with themselves (NaN and infinities from data and arithmetic, kept in names, elements, properties); distinct_nontrivial = distinct source texts (by hash) whose result the statement specifies",
+			"also floats with a fraction around every power of two under ++/--/-, quote characters inside literals of both styles, lone CR and padded directive parentheses in the varied layout, leading-zero integer literals, failing sub-expressions at every position, trees re-evaluated in loops; lists ending in a comma, variables named In/Nil/TRUE; round 8: keys with capitalised twins, empty arrays as index bases; round 9: inexact-float operands, names after blocks; scale: chains to 1000 operands, nests to 300; concurrent replay of sampled evaluations; rounds 10-11: tricky names, native number bindings; rounds 12-13: look-alike data sets on one loaded page, tiny and huge float results, strings valid only when joined, operands from values with methods; round 14: integer literal ladder 0..70000; round 15: keys spelling character references; round 16: values compared with themselves (NaN and infinities from data and arithmetic, kept in names, elements, properties); round 17: calls on arithmetic results that are halves of either sign; distinct_nontrivial = distinct source texts (by hash) whose result the statement specifies",
 		Assumptions: []string{
 			"operations the statement does not define (bool/nil/array/object comparisons, ordering of strings, float %, '!' on non-booleans, '-' on non-numbers, float '--' where the pinned decimal decrement differs from IEEE x-1) are executed for the crash monitor but not judged",
 			"floats stay below 1e15 in magnitude; error texts are not compared, only error-ness",
